@@ -149,5 +149,8 @@ proof fn cpath_inj(dir: Seq<char>, a: Seq<u8>, b: Seq<u8>) requires a.len() == 3
     assert(pb.subrange(k, pb.len() as int) =~= enc62_sha(b));
     enc62_injective(a, b);
 }
+// the same as a broadcast lemma, for places where a hint cannot be placed (match arms)
+broadcast proof fn cpath_inj_b(dir: Seq<char>, a: Seq<u8>, b: Seq<u8>) requires a.len() == 32, b.len() == 32, #[trigger] cpath(dir, a) == #[trigger] cpath(dir, b) ensures a == b
+{ cpath_inj(dir, a, b); }
 proof fn cpath_under(dir: Seq<char>, sha: Seq<u8>) ensures under(dir, cpath(dir, sha))
 { let p = cpath(dir, sha); assert(p.subrange(0, dir.len() as int + 1) =~= dir + seq!['/']); }
